@@ -288,3 +288,8 @@ def run(repo: Repo, rep: Report) -> None:
                             stale.add(nm)
                 rep.ob("C20.e-no-stale-loop-variable", mod, "%s.%s" % (cls, m), "for %s in %s" % (norm(l2.target), norm(l2.iter)[:40]), not stale,
                        "uses its own loop variables" if not stale else "the loop reads %s, which is only bound by an earlier loop that has finished: every iteration sees that loop's last element" % sorted(stale), node=l2)
+
+    # ------------------------------------------------------------------ (f) result decoding (anchored: results/jsonresults.py, xmlresults.py)
+    from checks.c16 import json_memo_rule
+
+    json_memo_rule(repo, rep, "C20.f-json-result-terms-parsed-individually")
